@@ -9,6 +9,7 @@ import (
 	"context"
 	"encoding/json"
 	"fmt"
+	"hash/fnv"
 	"math/big"
 	"reflect"
 	"sort"
@@ -221,6 +222,13 @@ func compareWithModel(r *rec, api string, orig, red map[string]interface{}) *hx.
 			continue
 		}
 		if !sameJSON(orig[k], red[k]) {
+			for ok, ov := range orig {
+				// the open finding again: a key spelt in another letter case, coming later in the text, supplies the value
+				if ok != k && strings.EqualFold(ok, k) && sameJSON(ov, red[k]) {
+					return fail("C05/top/"+k+":case-variant-promoted",
+						fmt.Sprintf("%s (room version %s): the kept top-level key %q has the value of the key %q of the original event", api, r.Ver, k, ok), orig[k], red[k])
+				}
+			}
 			return fail("C05/value/top/"+k, fmt.Sprintf("%s: value of kept top-level key %q changed", api, k), orig[k], red[k])
 		}
 	}
@@ -274,51 +282,33 @@ func runScenario(r *rec) *hx.Result {
 		return fail("C05/version/unregistered", "room version "+r.Ver+" is not registered", nil, nil)
 	}
 	var event []byte
+	var built gmsl.PDU
 	switch {
 	case r.Raw != "":
 		event = []byte(r.Raw)
 	case r.Fam == "pdu":
-		event = pduEvent(r)
+		event, built = pduEvent(r)
 	default:
-		event = rawEvent(r)
+		// the same abstract event in every spelling
+		for sp := 0; sp < spellings; sp++ {
+			if res := checkJSON(r, ver, rawEvent(r, sp), fmt.Sprintf("RedactEventJSON[spelling %d]", sp)); res != nil {
+				return res
+			}
+		}
+		return nil
 	}
 	orig, err := decodeObj(event)
 	if err != nil {
 		panic(fmt.Sprintf("harness: composed event is not JSON: %v", err))
 	}
-	if r.Raw == "" {
-		// the concretiser must realise exactly the abstract event
-		if !reflect.DeepEqual(keysOf(orig), sorted(mapKeys(r.Top))) {
-			panic(fmt.Sprintf("harness: composed top-level keys %v differ from the scenario's %v", keysOf(orig), sorted(mapKeys(r.Top))))
-		}
-	}
 
 	// ---- IRoomVersion.RedactEventJSON -------------------------------------------------------------
 	if r.API != "pdu" {
-		redJSON, err := ver.RedactEventJSON(event)
-		if err != nil {
-			return fail("C05/json/error", "RedactEventJSON failed: "+err.Error(), nil, nil)
-		}
-		red, err := decodeObj(redJSON)
-		if err != nil {
-			return fail("C05/json/invalid-output", "RedactEventJSON output is not a JSON object: "+err.Error(), nil, string(redJSON))
-		}
-		if res := compareWithModel(r, "RedactEventJSON", orig, red); res != nil {
+		if res := checkJSON(r, ver, event, "RedactEventJSON"); res != nil {
 			return res
 		}
-		again, err := ver.RedactEventJSON(redJSON)
-		if err != nil {
-			return fail("C05/idempotent/error", "second RedactEventJSON failed: "+err.Error(), nil, nil)
-		}
-		red2, err := decodeObj(again)
-		if err != nil || !sameJSON(red, red2) {
-			return fail("C05/idempotent/"+typeClass(r.Type), "redacting the redacted event changed it", string(redJSON), string(again))
-		}
-		if !bytes.Equal(gmsl.CanonicalJSONAssumeValid(again), gmsl.CanonicalJSONAssumeValid(redJSON)) {
-			return fail("C05/idempotent/"+typeClass(r.Type)+"/bytes", "canonical form of the twice redacted event differs", string(redJSON), string(again))
-		}
 	}
-	if r.Fam == "raw" || (r.Fam == "probe" && r.API != "pdu") {
+	if r.Fam == "probe" && r.API != "pdu" {
 		return nil
 	}
 
@@ -402,6 +392,20 @@ func runScenario(r *rec) *hx.Result {
 		}
 	}
 
+	// ---- sibling entry points, and state carried by the event object -----------------------------------------
+	// (every scenario with at most one optional key - the per-version families - and a fifth of the others,
+	// chosen by a hash of the scenario so that a re-execution chooses alike)
+	if optionalKeys(r) <= 1 || scenarioHash(r)%5 == 0 {
+		if res := siblings(r, ver, event, before.ID, pj, red); res != nil {
+			return res
+		}
+		if built != nil {
+			if res := builtDirectly(r, ver, built); res != nil {
+				return res
+			}
+		}
+	}
+
 	// ---- signatures ----------------------------------------------------------------------------------------
 	if r.Raw != "" {
 		return nil // probes from recorded traces carry no keys
@@ -412,7 +416,7 @@ func runScenario(r *rec) *hx.Result {
 	}
 	signers := signersFor(r.Ver)
 	for n, s := range signers {
-		role := []string{"sender-server", "other-server"}[n]
+		role := []string{"sender-server", "other-server", "sender-server-second-key"}[n]
 		if err := gmsl.VerifyJSON(s.name, s.key, s.pub, origRed); err != nil {
 			// signing is "redact, then sign": a signature that does not verify this way never verified
 			return fail("C05/sig/"+role+"/never-verified", "signature made by PDU.Sign does not verify on the original event: "+err.Error(), nil, nil)
@@ -426,10 +430,214 @@ func runScenario(r *rec) *hx.Result {
 	if err != nil {
 		panic(err)
 	}
+	// the batch variant
+	if errs := gmsl.VerifyAllEventSignatures(context.Background(), []gmsl.PDU{op, p, op}, verifier, identityQuerier); len(errs) != 3 {
+		return fail("C05/sig/VerifyAllEventSignatures/result-count", "VerifyAllEventSignatures does not answer once per event", 3, len(errs))
+	} else if errs[0] == nil && (errs[1] != nil || errs[2] != nil) {
+		return fail("C05/sig/VerifyAllEventSignatures/lost-by-redaction", fmt.Sprintf("VerifyAllEventSignatures accepts the original event and answers %v / %v for the redacted one and the original again", errs[1], errs[2]), nil, nil)
+	}
 	if e1 := gmsl.VerifyEventSignatures(context.Background(), op, verifier, identityQuerier); e1 == nil {
 		if e2 := gmsl.VerifyEventSignatures(context.Background(), p, verifier, identityQuerier); e2 != nil {
 			return fail("C05/sig/VerifyEventSignatures/lost-by-redaction", "VerifyEventSignatures accepts the original event and rejects the redacted one: "+e2.Error(), nil, nil)
 		}
+	}
+	return nil
+}
+
+// optionalKeys counts the keys of the scenario beyond what every PDU has.
+func optionalKeys(r *rec) int {
+	n := len(r.Con)
+	for k := range r.Top {
+		switch k {
+		case "type", "content", "sender", "room_id", "depth", "prev_events", "auth_events", "origin_server_ts", "hashes", "signatures", "event_id":
+		default:
+			n++
+		}
+	}
+	return n
+}
+
+func scenarioHash(r *rec) uint32 {
+	h := fnv.New32a()
+	h.Write([]byte(r.Raw))
+	h.Write([]byte(ntOf(r)))
+	for _, k := range sorted(mapKeys(r.Top)) {
+		h.Write([]byte(k + "=" + r.Top[k] + ";"))
+	}
+	for _, k := range sorted(mapKeys(r.Con)) {
+		h.Write([]byte(k + "=" + r.Con[k] + ";"))
+	}
+	return h.Sum32()
+}
+
+// siblings drives the event through the other constructors and call orders: the redacted form, the identity and
+// the event ID must be the ones of the plain trusted parse (wantID, pj / red).
+func siblings(r *rec, ver gmsl.IRoomVersion, event []byte, wantID string, pj []byte, red map[string]interface{}) *hx.Result {
+	same := func(how string, q gmsl.PDU) *hx.Result {
+		qj, err := decodeObj(q.JSON())
+		if err != nil {
+			return fail("C05/pdu/invalid-json", how+": JSON() is not a JSON object: "+err.Error(), nil, string(q.JSON()))
+		}
+		if !sameJSON(qj, red) {
+			return fail("C05/pdu/"+how+"/redacts-differently", fmt.Sprintf("%s (room version %s): redacted form differs from Redact() of the trusted parse", how, r.Ver), string(pj), string(q.JSON()))
+		}
+		if !q.Redacted() {
+			return fail("C05/pdu/not-marked-redacted", how+": Redacted() is false after Redact()", true, false)
+		}
+		if q.EventID() != wantID {
+			return fail("C05/eventid/changed", fmt.Sprintf("%s (room version %s): event ID after Redact() differs from the original's", how, r.Ver), wantID, q.EventID())
+		}
+		return nil
+	}
+	// Redact() before the event ID was ever asked for (the ID is computed lazily from the JSON)
+	q, err := ver.NewEventFromTrustedJSON(event, false)
+	if err != nil {
+		panic(err)
+	}
+	q.Redact()
+	if res := same("redact-before-first-EventID", q); res != nil {
+		return res
+	}
+	// constructor that is told the event ID
+	if q, err = ver.NewEventFromTrustedJSONWithEventID(wantID, event, false); err != nil {
+		return fail("C05/pdu/with-event-id/error", "NewEventFromTrustedJSONWithEventID: "+err.Error(), nil, nil)
+	}
+	q.Redact()
+	if res := same("NewEventFromTrustedJSONWithEventID", q); res != nil {
+		return res
+	}
+	// headered JSON
+	o, err := ver.NewEventFromTrustedJSON(event, false)
+	if err != nil {
+		panic(err)
+	}
+	hj, err := o.ToHeaderedJSON()
+	if err != nil {
+		return fail("C05/pdu/headered/error", "ToHeaderedJSON: "+err.Error(), nil, nil)
+	}
+	if q, err = gmsl.NewEventFromHeaderedJSON(hj, false); err != nil {
+		return fail("C05/pdu/headered/error", "NewEventFromHeaderedJSON: "+err.Error(), nil, nil)
+	}
+	if q.EventID() != wantID {
+		return fail("C05/eventid/headered-differs", "event ID after the headered round trip differs", wantID, q.EventID())
+	}
+	q.Redact()
+	if res := same("NewEventFromHeaderedJSON", q); res != nil {
+		return res
+	}
+	// an event that was given unsigned data after parsing
+	if q, err = o.SetUnsigned(map[string]interface{}{"age": 0, "prev_content": map[string]string{"membership": "<leave>"}}); err != nil {
+		return fail("C05/pdu/set-unsigned/error", "SetUnsigned: "+err.Error(), nil, nil)
+	}
+	q.Redact()
+	if res := same("SetUnsigned-then-Redact", q); res != nil {
+		return res
+	}
+	// the already redacted JSON, parsed as an ordinary event and as one flagged redacted
+	for _, flag := range []bool{false, true} {
+		if q, err = ver.NewEventFromTrustedJSON(pj, flag); err != nil {
+			return fail("C05/pdu/redacted-does-not-parse", "redacted JSON does not parse: "+err.Error(), nil, string(pj))
+		}
+		q.Redact()
+		q.Redact()
+		if flag {
+			if !bytes.Equal(q.JSON(), pj) {
+				return fail("C05/idempotent/pdu", "Redact() on an event parsed as already redacted changed its JSON", string(pj), string(q.JSON()))
+			}
+			if q.EventID() != wantID {
+				return fail("C05/eventid/changed", "event ID of the redacted JSON parsed as redacted differs from the original's", wantID, q.EventID())
+			}
+		} else if res := same("Redact-of-redacted-JSON", q); res != nil {
+			return res
+		}
+	}
+	// RedactEventJSON of what Redact() produced
+	rj, err := ver.RedactEventJSON(pj)
+	if err != nil {
+		return fail("C05/json/error", "RedactEventJSON of the redacted PDU failed: "+err.Error(), nil, nil)
+	}
+	if rr, err := decodeObj(rj); err != nil || !sameJSON(rr, red) {
+		return fail("C05/idempotent/pdu-then-json", "RedactEventJSON changes the JSON of a PDU redacted with Redact()", string(pj), string(rj))
+	}
+	return nil
+}
+
+// builtDirectly redacts the event exactly as EventBuilder.Build returned it (origin, prev_state, one signature).
+func builtDirectly(r *rec, ver gmsl.IRoomVersion, built gmsl.PDU) *hx.Result {
+	bj := append([]byte(nil), built.JSON()...)
+	id, typ, sender, roomID, sk := built.EventID(), built.Type(), built.SenderID(), built.RoomID().String(), built.StateKey()
+	wantJSON, err := ver.RedactEventJSON(bj)
+	if err != nil {
+		return fail("C05/json/error", "RedactEventJSON of the built event failed: "+err.Error(), nil, nil)
+	}
+	want, err := decodeObj(wantJSON)
+	if err != nil {
+		return fail("C05/json/invalid-output", "RedactEventJSON output is not a JSON object", nil, string(wantJSON))
+	}
+	built.Redact()
+	got, err := decodeObj(built.JSON())
+	if err != nil || !sameJSON(want, got) {
+		return fail("C05/pdu/built/redacts-differently", fmt.Sprintf("Redact() of the event returned by EventBuilder.Build differs from RedactEventJSON of its JSON (room version %s)", r.Ver), string(wantJSON), string(built.JSON()))
+	}
+	if built.EventID() != id {
+		return fail("C05/eventid/changed", fmt.Sprintf("EventID() of the event returned by EventBuilder.Build changed by Redact() (room version %s)", r.Ver), id, built.EventID())
+	}
+	sk2 := built.StateKey()
+	if built.Type() != typ || built.SenderID() != sender || built.RoomID().String() != roomID || (sk == nil) != (sk2 == nil) || (sk != nil && *sk != *sk2) {
+		return fail("C05/core/built", "type, sender, room or state key of the built event changed by Redact()", nil, nil)
+	}
+	first := signersFor(r.Ver)[0]
+	bred, err := ver.RedactEventJSON(bj)
+	if err == nil && gmsl.VerifyJSON(first.name, first.key, first.pub, bred) == nil {
+		if err := gmsl.VerifyJSON(first.name, first.key, first.pub, built.JSON()); err != nil {
+			return fail("C05/sig/sender-server/lost-by-redaction", "signature made by EventBuilder.Build verified on the built event but not on its redacted form: "+err.Error(), nil, nil)
+		}
+	} else {
+		return fail("C05/sig/sender-server/never-verified", "signature made by EventBuilder.Build does not verify", nil, nil)
+	}
+	return nil
+}
+
+// checkJSON runs IRoomVersion.RedactEventJSON on one event text: key sets, values, idempotence.
+func checkJSON(r *rec, ver gmsl.IRoomVersion, event []byte, api string) *hx.Result {
+	orig, err := decodeObj(event)
+	if err != nil {
+		panic(fmt.Sprintf("harness: composed event is not JSON: %v: %s", err, event))
+	}
+	if r.Raw == "" {
+		// the concretiser must realise exactly the abstract event
+		if !reflect.DeepEqual(keysOf(orig), sorted(mapKeys(r.Top))) {
+			panic(fmt.Sprintf("harness: composed top-level keys %v differ from the scenario's %v", keysOf(orig), sorted(mapKeys(r.Top))))
+		}
+		if oc, _ := orig["content"].(map[string]interface{}); strings.Join(keysOf(oc), "\x00") != strings.Join(sorted(mapKeys(r.Con)), "\x00") {
+			panic(fmt.Sprintf("harness: composed content keys %v differ from the scenario's %v", keysOf(oc), sorted(mapKeys(r.Con))))
+		}
+	}
+	input := append([]byte(nil), event...)
+	redJSON, err := ver.RedactEventJSON(event)
+	if err != nil {
+		return fail("C05/json/error", api+" failed: "+err.Error(), nil, nil)
+	}
+	if !bytes.Equal(input, event) {
+		return fail("C05/json/input-modified", api+" modified its input buffer", string(input), string(event))
+	}
+	red, err := decodeObj(redJSON)
+	if err != nil {
+		return fail("C05/json/invalid-output", api+" output is not a JSON object: "+err.Error(), nil, string(redJSON))
+	}
+	if res := compareWithModel(r, api, orig, red); res != nil {
+		return res
+	}
+	again, err := ver.RedactEventJSON(redJSON)
+	if err != nil {
+		return fail("C05/idempotent/error", "second RedactEventJSON failed: "+err.Error(), nil, nil)
+	}
+	red2, err := decodeObj(again)
+	if err != nil || !sameJSON(red, red2) {
+		return fail("C05/idempotent/"+typeClass(r.Type), "redacting the redacted event changed it", string(redJSON), string(again))
+	}
+	if !bytes.Equal(gmsl.CanonicalJSONAssumeValid(again), gmsl.CanonicalJSONAssumeValid(redJSON)) {
+		return fail("C05/idempotent/"+typeClass(r.Type)+"/bytes", "canonical form of the twice redacted event differs", string(redJSON), string(again))
 	}
 	return nil
 }
